@@ -26,7 +26,7 @@ func checkC02(p *Prog, r *Report) {
 	for _, nt := range t.Updaters {
 		updateListTemplate(p, r, "R1", nt)
 	}
-	r.Floor("R1", "Updater implementations", len(t.Updaters), 87)
+	r.Floor("R1", "Updater implementations", len(t.Updaters), 80)
 
 	// R2 cross-wiring lint
 	r.Rule("R2", "no same-typed role value is passed, stored or received under the name of a different role (filterPartial/filterDelete, remoteWrite/persist, selector/elements); zero reports expected, the built-in positive example must fire")
